@@ -191,6 +191,12 @@ def crash_rounds(ctx, scenario, rng, case, every, on_kill=None, check_rerun=True
     res.setmax(f"max/events/{scenario}", N)
     res.sample({"scenario": scenario, "files": desc["files"], "mutating_events": N, "first_events": events[:6], "every": every})
     kills = set(range(1, N + 1)) if every == 1 else (set(range(1, N + 1, every)) | interesting_kills(events))
+    if every != 1:
+        # whatever the stride lands on, a copy and a write cut half way are always among the kill points
+        for kind_ in ("copyfile", "open-w"):
+            first_ = next((i for i, (k_, _t, _s) in enumerate(events, 1) if k_ == kind_), None)
+            if first_:
+                kills.add(first_)
     if scenario.endswith("-wide"):
         # thousands of events: the ones that write a directory object (and their neighbours), plus a spread of others
         dir_events = {i for i, (_k, tgt, _s) in enumerate(events, 1) if tgt.endswith(DIR_SUFFIX)}
